@@ -22,11 +22,12 @@ import os
 import shutil
 import tempfile
 
-LEAN_MODULES = ['Pycdlib.Props.C13', 'Pycdlib.Props.C01Tree', 'Pycdlib.Props.C14', 'Pycdlib.Props.C10Names']
+LEAN_MODULES = ['Pycdlib.Props.C13', 'Pycdlib.Props.C01Tree', 'Pycdlib.Props.C14', 'Pycdlib.Props.C10Names', 'Pycdlib.Props.C13Reloc']
 THEOREMS = ['Pycdlib.check_file_iff', 'Pycdlib.check_dir_iff', 'Pycdlib.check_refusal_documented',
             'Pycdlib.isD1_matches_source', 'Pycdlib.splitLast_eq_some', 'Pycdlib.splitLast_eq_none',
             'Pycdlib.Spec.history_is_forest', 'Pycdlib.Atomic.run_preserves_wf',
-            'Pycdlib.UdfNames.identOf_injective', 'Pycdlib.UdfNames.lookup_own_name']
+            'Pycdlib.UdfNames.identOf_injective', 'Pycdlib.UdfNames.lookup_own_name',
+            'Pycdlib.Reloc.relocName_fresh', 'Pycdlib.Reloc.relocMany_nodup']
 PARTIAL = {
     'unique_idents / idents_legal over edit histories': 'stated on the edit-state model in Props/C04 (sortedness and '
     'distinctness of children) for the ISO9660/Joliet fragment; UDF and Rock Ridge names are covered by the S-api oracle only',
@@ -408,6 +409,22 @@ def run_api(ctx):
                 ops.append({'op': 'adddir', 'iso': p_ + '/' + leaf + '/DATA', 'rr': 'data'})
                 if k >= 2:
                     scenario(ctx, tmpdir, cfg, list(ops), 'relocated-same-identifier-x%d:%s' % (k + 1, ver))
+                    # correspondence with Model/Reloc (theorem relocMany_nodup): the identifiers the library gives them
+                    with isoapi.frozen_time():
+                        iso = isoapi.new_iso(cfg)
+                        for op in ops:
+                            isoapi.apply_op(iso, op)
+                        try:
+                            got = sorted(c.file_identifier().decode('ascii') for c in iso.get_record(iso_path='/RR_MOVED').children
+                                         if not c.is_dot() and not c.is_dotdot())
+                        except Exception as e:  # noqa
+                            got = ['raised:%s' % isoapi.exc_class(e)]
+                        iso.close()
+                    want = sorted(ctx.driver.ask(['relocmany DATA %d' % (k + 1)])[0].split('.'))
+                    ctx.traces_validated += 1
+                    if got != want:
+                        ctx.disagree('S-fn/relocmany', 'identifiers of %d relocated directories called DATA: impl=%s model=%s' % (k + 1, got, want),
+                                     {'kind': 'history', 'cfg': cfg, 'ops': list(ops), 'label': 'relocated-same-identifier'})
             ctx.count(key=('reloc-same-ident', ver), kind='api:relocated-same-identifier')
         # entries a user puts below the relocation directory obey the uniqueness rule like any other (only relocated
         # directories themselves may share an identifier there)
